@@ -32,7 +32,7 @@ pub struct Case {
     pub sweep2: usize,
 }
 
-pub const FAMILIES: &[&str] = &["data", "vanish", "jumbo", "tcp"];
+pub const FAMILIES: &[&str] = &["data", "vanish", "jumbo", "garble", "tcp"];
 
 /// opt-in probe scenarios of the tcp family (DCMC_TCP_EXTRA=slow,silent): behaviours the pinned tree
 /// is known to show and that the lead has to judge (notes/wK.md); not part of `run C20` by default
@@ -216,6 +216,29 @@ pub fn family(name: &str, tier: Tier) -> Vec<Case> {
         }
         // the dc stream over a stream transport (Protocol::Tcp), see tcp.rs. MTU is not a dimension: over
         // a stream transport dc writes records of up to 2^14 bytes whatever the path MTU is.
+        // unauthentic variants of every datagram of a transfer (stream packets and control packets of
+        // both directions), delivered just ahead of the genuine one: the transfer must be unaffected
+        "garble" => {
+            let list: Vec<(usize, usize, usize, Order, u16)> = if quick {
+                vec![(1000, 1000, 100, Order::Seq, 1500), (9000, 9000, 65_536, Order::Concurrent, 1250), (40_000, 1, 65_536, Order::Seq, 9000)]
+            } else {
+                vec![
+                    (1, 1, 1, Order::Seq, 1250),
+                    (1000, 1000, 100, Order::Seq, 1500),
+                    (9000, 9000, 65_536, Order::Concurrent, 1250),
+                    (40_000, 1, 65_536, Order::Seq, 9000),
+                    (1, 40_000, 100, Order::EarlyShutdown, 1500),
+                    (9000, 9000, 100, Order::DropWriter, 1500),
+                    (9000, 9000, 65_536, Order::DropReader, 9000),
+                    (40_000, 40_000, 65_536, Order::SeqFin, 1250),
+                ]
+            };
+            for (req, resp, rbuf, order, mtu) in list {
+                let mut scn = Scenario::new(req, resp, rbuf, order, mtu);
+                scn.name = format!("garble/{}", scn.name);
+                out.push(Case { scn, menu: vec![Action::Garble], k: 1, k2_max_dgrams: 0, extra: vec![], extra_after: 0, sweep: 0, sweep2: 0 });
+            }
+        }
         "tcp" => {
             let k2 = if quick { 24 } else { 48 };
             // ---- "calls" mode: deviations {One, Half, AllBut1, Pend} at every socket call, k = 2 where the
